@@ -189,21 +189,24 @@ def worldOk (cs : List Conn) (eA eB : List Nat) : Bool :=
     if c.aInit then (kB.length == 1 && kB.all (fun x => kA.contains x))
     else (kA.length == 1 && kA.all (fun x => kB.contains x))
 
-/-- End-to-end outcome oracle: `dirs[i] = true` iff node A dialled connection `i`;
-`kept*` are the connection indices each node still lists at quiescence, `ready*` the
-connections reported ready that are still alive. Both nodes keep the same single connection,
-it is the only live ready one, and when both directions were dialled it is a dial of the
-node whose name sorts last (`o = compare nameB nameA`). -/
-def e2eOk (o : Ordering) (dirs : List Bool) (keptA keptB readyA readyB : List Nat) : Bool :=
+/-- End-to-end outcome oracle (exactly what C18 states about outcomes): `kept*` are the
+connection indices each node still lists at quiescence, `ready*` the connections reported
+ready that are still alive. Both nodes keep the same single connection and it is the only
+live ready one. -/
+def e2eOk (n : Nat) (keptA keptB readyA readyB : List Nat) : Bool :=
   match keptA, keptB with
-  | [i], [j] =>
-    i == j && decide (i < dirs.length) && readyA == [i] && readyB == [j] &&
-    (if dirs.any (· == true) && dirs.any (· == false) then
-       (match o with
-        | .lt => dirs[i]? == some true
-        | .gt => dirs[i]? == some false
-        | .eq => true)
-     else true)
+  | [i], [j] => i == j && decide (i < n) && readyA == [i] && readyB == [j]
   | _, _ => false
+
+/-- What the MODEL additionally predicts about the outcome (correspondence, not property):
+when both directions were dialled the survivor is a dial of the node whose name sorts last
+(`dirs[i] = true` iff node A dialled connection `i`, `o = compare nameB nameA`). -/
+def e2eDirectionAsModel (o : Ordering) (dirs : List Bool) (keptA : List Nat) : Bool :=
+  if dirs.any (· == true) && dirs.any (· == false) then
+    match keptA, o with
+    | [i], .lt => dirs[i]? == some true
+    | [i], .gt => dirs[i]? == some false
+    | _, _ => true
+  else true
 
 end Election
